@@ -11,7 +11,9 @@ _prev_resume = _simpy.events.Process._resume
 def _counting_resume(self, event):
     self._fs_n = getattr(self, "_fs_n", 0) + 1
     r = _prev_resume(self, event)
-    if not self.is_alive and getattr(self, "_ok", True) is False:
+    if not self.is_alive and getattr(self, "_ok", True) is False and FAIL["last"] is None:
+        # the FIRST process that fails is the one whose exception the kernel re-raises (its failure event is queued first);
+        # a second process may fail before that event is processed
         FAIL["last"] = (getattr(getattr(self, "_generator", None), "__name__", "?"), self._fs_n)
     return r
 _simpy.events.Process._resume = _counting_resume
